@@ -38,7 +38,7 @@ FirstDiff(fin, fout, adjRules, adjVars) ==
 TRun ==
   /\ Ev.e = "run" /\ ~run.started
   /\ LET e == Ev IN
-     /\ run' = [started |-> TRUE, premium |-> e.premium, counts |-> e.counts, nColoured |-> e.nColoured,
+     /\ run' = [started |-> TRUE, premium |-> e.premium, mode |-> e.mode, counts |-> e.counts, nColoured |-> e.nColoured,
                 ncards |-> e.ncards, nlisted |-> e.nlisted]
      /\ fails' = fails
           \cup When(e.exit = 0 /\ e.exception = "", "C08_RunFailed")
@@ -67,6 +67,8 @@ TRule ==
             \cup When(e.cardAfter # <<>>, "C08_CardColourUnreadable")
             \cup When(e.written = e.cardAfter, "C08_ReportedIsWritten")
             \cup When(e.cardBgOk, "C08_CardBackground")
+            \* C04 through the command: with --mode 0 an adjusted colour is within dE 5.0 of the colour it replaces
+            \cup (IF run.mode = 0 /\ e.cardDe4 > 50010 THEN {"C04_CliStrictCap"} ELSE {})
          failedFails ==
             When(e.unchanged, "C08_AttentionRuleLeftUnchanged")
          restFails ==
